@@ -84,7 +84,9 @@ void LocalAuthMiddleware::setHeaderName(const QByteArray &name)
 
 bool LocalAuthMiddleware::process(Socket *socket)
 {
-    if (socket->headers().value(d->tokenHeader) != d->token) {
+    // Compare bytes: converting the header value to a QString would stop at a
+    // NUL byte and skip a byte order mark, accepting more than the token
+    if (socket->headers().value(d->tokenHeader) != d->token.toUtf8()) {
         socket->writeError(Socket::Forbidden);
         return false;
     }
